@@ -63,7 +63,7 @@ class Retarget(Machine):
     REQUIRED_PROBES = tuple("retarget2_" + k for k in KINDS) + (
         "rejected_n_points", "rejected_n_dims", "rejected_between_accepted", "set_target_on_copy",
         "mirror_needed_allow_off", "mirror_needed_allow_on", "similarity_rotation_off",
-        "tps_floor_matters", "gpa_checked", "noise_before_retarget", "pinv_retargeted")
+        "tps_floor_matters", "gpa_checked", "gpa_not_converged", "noise_before_retarget", "pinv_retargeted")
 
     @classmethod
     def swarm(cls, rng, tier):
@@ -88,8 +88,9 @@ class Retarget(Machine):
         if r < 0.95:
             return {"op": "noise", "i": rng.randrange(64), "which": rng.randrange(6),
                     "seed": rng.getrandbits(32), "dst": rng.randrange(64)}
-        return {"op": "gpa", "seed": rng.getrandbits(32), "m": rng.randrange(3, 7),
-                "n": rng.randrange(4, 9), "mirror": rng.randrange(2), "d3": rng.randrange(2)}
+        return {"op": "gpa", "seed": rng.getrandbits(32), "m": rng.randrange(2, 7),
+                "n": rng.randrange(4, 9), "mirror": rng.randrange(2), "d3": rng.randrange(2),
+                "dis": rng.choice([0, 1, 1, 2])}
 
     @classmethod
     def exhaustive(cls, tier):
@@ -384,7 +385,14 @@ class Retarget(Machine):
         base = gen.general_points(op["seed"], n, d)
         g = rs(op["seed"] ^ 0x99)
         shapes = []
+        dis = op.get("dis", 0)
         for j in range(m):
+            if dis:
+                # dissimilar shapes: unrelated point sets (dis == 2: of very different aspect), for which
+                # the iteration may not converge within its budget
+                s = g.randn(n, d) * (np.array([1.0, 8.0, 0.3][:d]) if (dis == 2 and j % 2) else 1.0) * 5.0
+                shapes.append(self._pass(s))
+                continue
             H = gen.homog_matrix("Similarity", int(g.randint(2 ** 31)), d)
             if np.linalg.det(H[:d, :d]) < 0 and not (op["mirror"] % 2):
                 H[:d, 0] *= -1
@@ -397,6 +405,8 @@ class Retarget(Machine):
             ctx.fail("gpa", "gpa_raised", repr(ex))
             return
         tgt = gpa.target
+        if not gpa.converged:
+            ctx.probe("gpa_not_converged")
         for j, t in enumerate(gpa.transforms):
             fresh = AlignmentSimilarity(PointCloud(shapes[j].points.copy()), PointCloud(tgt.points.copy()), allow_mirror=mirror)
             ok, err = self._close(t.h_matrix, fresh.h_matrix)
